@@ -58,8 +58,8 @@ for k, v in pass1.items():
 p1txt = "; ".join(f"round {r}: {c[0]} of {c[1]}" for r, c in sorted(per.items()))
 out += [f"First pass (any of the 20 checks, as they were when that round's agents started; in round 6 only the check of the agent's property was run): {p1txt}. Now: {n_now} of {len(rows)} caught, {n_own} of them by the check of the property the agent was given.",
 "The one change still missed, C05-r2m1, alters how NaN compares (NaN from `inf - inf`, or the string 'NaN'): non-finite values are [P] throughout (section 3.1) because no property statement fixes them, so no check claims it.",
-"Four further changes are kept under `seeded/obsolete/` with a note each: C04-r3m1 manifested only through the array-length defect K-ALIAS and is harmless since that was repaired; C01-m2 (a Go panic of integer `%`) and C14-r2m2 (a per-value slice of roots that was never reset) perverted code that the sixth round's repairs replaced (626a211, 3a6b155); C07-r6m2 changes what `next` does in BEGIN / END / BEGINFILE / ENDFILE rules, which no statement fixes (pinned, reported as a NOTE).",
-"The sixth round's repairs of /repo touched lines under 39 stored changes; 3 re-applied by three-way merge, 36 were re-written for the new tree by six sub-agents (given the old patch, its note and demonstration and a scratch clone; `patch.before-c9e43cc.diff` keeps the original) and re-confirmed by `tools/ingest_ported.sh`; one demonstration (C10-m2) used `false++`, which is a syntax error since 12c2390, and now stores through a match binding instead.",
+"Five further changes are kept under `seeded/obsolete/` with a note each: C09-r6m2 weakened a helper (`existingSpeculative`) that repair 60de3d8 then removed altogether; C04-r3m1 manifested only through the array-length defect K-ALIAS and is harmless since that was repaired; C01-m2 (a Go panic of integer `%`) and C14-r2m2 (a per-value slice of roots that was never reset) perverted code that the sixth round's repairs replaced (626a211, 3a6b155); C07-r6m2 changes what `next` does in BEGIN / END / BEGINFILE / ENDFILE rules, which no statement fixes (pinned, reported as a NOTE).",
+"The sixth round's repairs of /repo touched lines under 39 stored changes (and the three repairs that followed the review under 3 more, ported by hand); 3 re-applied by three-way merge, 36 were re-written for the new tree by six sub-agents (given the old patch, its note and demonstration and a scratch clone; `patch.before-c9e43cc.diff` keeps the original) and re-confirmed by `tools/ingest_ported.sh`; one demonstration (C10-m2) used `false++`, which is a syntax error since 12c2390, and now stores through a match binding instead.",
 "For round 2 the first pass was run afterwards against the commit that preceded the round (a3da53e), because I had started strengthening from the agents' reports before running anything; for rounds 1 and 3 it was run before any change.", ""]
 out += ["What the misses of the first round had in common, and what was added (section 4 describes the workloads as they are now):", "",
 "* **state that survives between evaluations of one expression site** (regex compiled once per site; method cell cached on the AST node; shared true/false/null cells; shared key buffer): workloads evaluated every site once. Added: operator functions `opf<i>(l, r)` so that one site sees a whole batch of operand pairs, and a batch whose members agree alone but not in sequence is itself a violation (C05); recursion re-entering a method call site (C15); nested for-in over two multi-key objects, directly and through a function (C07); disturber programs that store into cells obtained from literals, and numeric-looking object keys whose numeric and string orders disagree (C10).",
